@@ -82,12 +82,12 @@ Proof.
   rewrite R3. exists t3. rewrite dec_be32, N.mod_small by exact Hx. auto.
 Qed.
 
-Lemma recv_metadata_ok fx f d t rest : nonul f = true -> 4 + len_of f + len_of d < INT_LIMIT -> good t = true ->
+Lemma recv_metadata_ok fx f d t rest : nonul f = true -> valid_name f = true -> 4 + len_of f + len_of d < INT_LIMIT -> good t = true ->
   bytes_of t = (be32 (len_of f) ++ f ++ d) ++ rest ->
   exists t', recv_metadata fx (4 + len_of f + len_of d) t = Handled (AAppend f d) t' /\
              good t' = true /\ bytes_of t' = rest.
 Proof.
-  intros Hf Hl G B. rewrite <- !app_assoc in B. unfold recv_metadata.
+  intros Hf Hv Hl G B. rewrite <- !app_assoc in B. unfold recv_metadata.
   destruct (read_all_app t (be32 (len_of f)) _ G B) as [t2 [R [B2 G2]]].
   change (length (be32 (len_of f))) with 4%nat in R. rewrite R.
   rewrite dec_be32, N.mod_small by (unfold INT_LIMIT, len_of in *; lia).
@@ -98,7 +98,7 @@ Proof.
   destruct (4 + len_of f + len_of d <? 4 + len_of f) eqn:E2; [kill_cond E2|].
   destruct (read_all_app t3 d rest G3 B3) as [t4 [R4 [B4 G4]]].
   replace (N.to_nat (4 + len_of f + len_of d - 4 - len_of f)) with (length d) by (unfold len_of; lia).
-  rewrite R4. exists t4. rewrite cstr_nonul by exact Hf. auto.
+  rewrite R4. exists t4. rewrite cstr_nonul by exact Hf. rewrite Hv, andb_false_r. auto.
 Qed.
 
 Lemma recv_info_ok fx h i t rest : length h = HDR -> sizeof_uftrace_file_header + len_of i < INT_LIMIT ->
@@ -150,7 +150,8 @@ Proof.
   - apply andb_true_iff in W. destruct W as [W1 W2]. apply recv_numbered_ok; auto; lia.
   - apply andb_true_iff in W. destruct W as [W1 W2]. apply recv_numbered_ok; auto; lia.
   - apply andb_true_iff in W. destruct W as [W1 W2]. apply recv_numbered_ok; auto; lia.
-  - apply andb_true_iff in W. destruct W as [W1 W2]. apply recv_metadata_ok; auto; lia.
+  - apply andb_true_iff in W. destruct W as [W1 W2]. apply andb_true_iff in W1. destruct W1 as [W0 W1].
+    apply recv_metadata_ok; auto; lia.
   - apply andb_true_iff in W. destruct W as [W1 W2]. apply recv_info_ok; auto; [apply Nat.eqb_eq; exact W1 | lia].
   - exists t1. cbn [app] in B1. auto.
 Qed.
@@ -259,4 +260,39 @@ Proof.
       rewrite read_all_short; [reflexivity|]. rewrite B2, B1, skipn_length. lia. }
   unfold handle_client_sock. rewrite R, Hm, Hty, Hl, N.eqb_refl. cbn [negb].
   destruct (classify ty); try exact I; apply Num.
+Qed.
+
+(* ------------------------------------------------------------------ a metadata file whose name is a path *)
+Lemma recv_metadata_invalid fx f d t rest : nonul f = true -> valid_name f = false ->
+  4 + len_of f + len_of d < INT_LIMIT -> good t = true ->
+  bytes_of t = (be32 (len_of f) ++ f ++ d) ++ rest ->
+  exists t', recv_metadata fx (4 + len_of f + len_of d) t = Handled (if fx then ANone else AAppend f d) t' /\
+             good t' = true /\ bytes_of t' = rest.
+Proof.
+  intros Hf Hv Hl G B. rewrite <- !app_assoc in B. unfold recv_metadata.
+  destruct (read_all_app t (be32 (len_of f)) _ G B) as [t2 [R [B2 G2]]].
+  change (length (be32 (len_of f))) with 4%nat in R. rewrite R.
+  rewrite dec_be32, N.mod_small by (unfold INT_LIMIT, len_of in *; lia).
+  destruct ((INT_LIMIT <=? 4 + len_of f + len_of d) || (INT_LIMIT <=? len_of f) ||
+            (4 + len_of f + len_of d <? len_of f)) eqn:E; [kill_cond E|].
+  destruct (read_all_app t2 f _ G2 B2) as [t3 [R3 [B3 G3]]].
+  replace (N.to_nat (len_of f)) with (length f) by (unfold len_of; lia). rewrite R3.
+  destruct (4 + len_of f + len_of d <? 4 + len_of f) eqn:E2; [kill_cond E2|].
+  destruct (read_all_app t3 d rest G3 B3) as [t4 [R4 [B4 G4]]].
+  replace (N.to_nat (4 + len_of f + len_of d - 4 - len_of f)) with (length d) by (unfold len_of; lia).
+  rewrite R4. exists t4. rewrite cstr_nonul by exact Hf. rewrite Hv. destruct fx; cbn [andb negb]; auto.
+Qed.
+
+(* since the fix a SEND_META_DATA whose file name is empty, ".", ".." or contains '/' is read whole (the framing stays
+   intact) and ignored; the code as found appended to that PATH (outside the client's directory, or exited) *)
+Lemma invalid_name_ignored fx f d t rest : nonul f = true -> valid_name f = false ->
+  4 + len_of f + len_of d < INT_LIMIT -> good t = true -> bytes_of t = enc (MMeta f d) ++ rest ->
+  exists t', handle_client_sock fx t = Handled (if fx then ANone else AAppend f d) t' /\ good t' = true /\ bytes_of t' = rest.
+Proof.
+  intros Hf Hv Hl G B. rewrite (enc_split (MMeta f d)), <- app_assoc in B.
+  destruct (read_all_app t _ _ G B) as [t1 [R [B1 G1]]].
+  rewrite msg_hdr_length in R. unfold handle_client_sock. rewrite R.
+  destruct (hdr_fields (ty_of (MMeta f d)) (lenf (MMeta f d))) as [Hm [Ht Hl']]; [reflexivity|cbn [lenf]; unfold INT_LIMIT in Hl; lia|].
+  rewrite Hm, Ht, Hl', N.eqb_refl, classify_ty. cbn [negb kind_of lenf body] in *.
+  apply recv_metadata_invalid; auto.
 Qed.
